@@ -32,6 +32,7 @@ func (s *Server) Listen(req *signaling.ListenRequest, strm signaling.SRPCSignali
 	}
 	tkr.listening = true
 	listenNonce := tkr.listenNonce
+	verifListenEvent(s, "lreg", strm, tkr, pidStr, listenNonce, "", "")
 	s.mtx.Unlock()
 
 	// Cleanup when we exit
@@ -44,6 +45,7 @@ func (s *Server) Listen(req *signaling.ListenRequest, strm signaling.SRPCSignali
 			currTkr.broadcast()
 			s.maybeReleasePeer(pidStr)
 		}
+		verifListenEvent(s, "lend", strm, tkr, pidStr, listenNonce, "", "")
 		s.mtx.Unlock()
 	}()
 
@@ -51,6 +53,7 @@ func (s *Server) Listen(req *signaling.ListenRequest, strm signaling.SRPCSignali
 	for {
 		s.mtx.Lock()
 		if tkr.listenNonce != listenNonce {
+			verifListenEvent(s, "lusurped", strm, tkr, pidStr, listenNonce, "", "")
 			s.mtx.Unlock()
 			return signaling.ErrUserpedListen
 		}
@@ -68,6 +71,7 @@ func (s *Server) Listen(req *signaling.ListenRequest, strm signaling.SRPCSignali
 			}
 		}
 		waitCh := tkr.getWaitCh()
+		verifListenEvent(s, "lloop", strm, tkr, pidStr, listenNonce, txWant, txNotWant)
 		s.mtx.Unlock()
 
 		if txNotWant != "" {
